@@ -36,17 +36,17 @@ macro_rules
               | apply ec_cancelAllFor $hR (Internal.event $hA)
               | apply ec_cancelKindFor $hR (Internal.event $hA)
               | apply ec_cancelUserAll $hR (Internal.event $hA)
-              | apply ec_guardSignal $hR (Internal.res $hA)
-              | apply ec_signal $hR (Internal.res $hA)
-              | apply ec_guardWithdraw $hR (Internal.event $hA) (Internal.res $hA)
+              | apply ec_guardSignal $hR (And.intro (Internal.res $hA) (Internal.cond $hA))
+              | apply ec_signal $hR (And.intro (Internal.res $hA) (Internal.cond $hA))
+              | apply ec_guardWithdraw $hR (Internal.event $hA) (And.intro (Internal.res $hA) (Internal.cond $hA))
               | apply ec_timerCancel $hR (Internal.event $hA)
               | apply ec_timersClear $hR (Internal.event $hA)
-              | apply ec_cancelAwaiteds $hR (Internal.event $hA) (Internal.res $hA)
-              | apply ec_poolDropHolder $hR (Internal.res $hA)
-              | apply ec_dropResources $hR (Internal.res $hA)
+              | apply ec_cancelAwaiteds $hR (Internal.event $hA) (And.intro (Internal.res $hA) (Internal.cond $hA))
+              | apply ec_poolDropHolder $hR (And.intro (Internal.res $hA) (Internal.cond $hA))
+              | apply ec_dropResources $hR (And.intro (Internal.res $hA) (Internal.cond $hA))
               | apply ec_guardWaitEnter $hR
-              | apply ec_guardWaitLeave $hR (Internal.event $hA) (Internal.res $hA)
-              | apply ec_poolMug $hR (Internal.intr $hA) (Internal.res $hA)
+              | apply ec_guardWaitLeave $hR (Internal.event $hA) (And.intro (Internal.res $hA) (Internal.cond $hA))
+              | apply ec_poolMug $hR (Internal.intr $hA) (And.intro (Internal.res $hA) (Internal.cond $hA))
               | apply ec_emit $hR
               | apply ec_modProc $hR
               | apply ec_setGuardQ $hR
@@ -92,7 +92,7 @@ theorem ei_poolLoop (w : World) (p : Pid) (pl rem initially : Nat) (preempt : Bo
   · rename_i x hx
     dsimp only
     split
-    · exact ec_signal hR hA.res _ _ (hupd _ rem (hpre _ (x.inUse + rem) h))
+    · exact ec_signal hR ⟨hA.res, hA.cond⟩ _ _ (hupd _ rem (hpre _ (x.inUse + rem) h))
     · have h1 : R (if x.cap - x.inUse > 0 then
           (poolUpdateRecord (recordPool (setPoolInUse w pl (x.inUse + (x.cap - x.inUse))) pl) pl p (x.cap - x.inUse),
             rem - (x.cap - x.inUse)) else (w, rem)).1 := by
@@ -111,7 +111,7 @@ theorem ei_poolLoop (w : World) (p : Pid) (pl rem initially : Nat) (preempt : Bo
             (poolUpdateRecord (recordPool (setPoolInUse w pl (x.inUse + (x.cap - x.inUse))) pl) pl p (x.cap - x.inUse),
               rem - (x.cap - x.inUse)) else (w, rem)).2)).1 := by
         split
-        · exact ec_poolMug hR hA.intr hA.res _ _ _ _ _ h1
+        · exact ec_poolMug hR hA.intr ⟨hA.res, hA.cond⟩ _ _ _ _ _ h1
         · exact h1
       split
       · exact h2
@@ -175,8 +175,8 @@ macro_rules
               | apply ei_pqGetLoop $hR $hA
               | apply ei_pqPutLoop $hR $hA
               | apply ei_condSignal $hR $hA
-              | apply ec_signal $hR (Internal.res $hA)
-              | apply ec_guardWaitLeave $hR (Internal.event $hA) (Internal.res $hA)
+              | apply ec_signal $hR (And.intro (Internal.res $hA) (Internal.cond $hA))
+              | apply ec_guardWaitLeave $hR (Internal.event $hA) (And.intro (Internal.res $hA) (Internal.cond $hA))
               | apply ec_cancelKindFor $hR (Internal.event $hA)
               | apply ec_cancelUserAll $hR (Internal.event $hA)
               | apply ec_recordPool $hR
